@@ -270,6 +270,8 @@ func (w *reqWorld) classify(msg string) string {
 					tried = append(tried, "C:"+l[len("custom:"):])
 				case strings.HasPrefix(l, "no field package.preload['") && strings.HasSuffix(l, "']"):
 					tried = append(tried, "P:"+l[len("no field package.preload['"):len(l)-2])
+				case l == "stat : no such file or directory":
+					tried = append(tried, "F:") // the empty template
 				case strings.HasPrefix(l, "stat "+w.dir+"/") && strings.HasSuffix(l, ": no such file or directory"):
 					tried = append(tried, "F:"+strings.TrimSuffix(l[len("stat "+w.dir+"/"):], ": no such file or directory"))
 				default:
@@ -585,6 +587,10 @@ func execRequire(ops []Op) []string {
 			// package.path = another string: the templates a[1] (relative to the module dir)
 			var ts []string
 			for _, t := range strings.Split(a[1], ";") {
+				if t == "" {
+					ts = append(ts, "") // an EMPTY template (";;", a leading or trailing ";"): tried as the file "" and passed over
+					continue
+				}
 				ts = append(ts, w.dir+"/"+t)
 			}
 			doLua(fmt.Sprintf("package.path = %q", strings.Join(ts, ";")))
@@ -913,7 +919,8 @@ func genC20Random(r *Rng, maxLen int) []Op {
 				add("newpreload", k, "go")
 			}
 		case c < 66:
-			add("path", Pick(r, []string{"alt/?.lua;?.lua", "alt/?.lua", "?.lua", "?.lua;alt/?.lua", "?.lua;?.lua;alt/?.lua", "none/?.lua;alt/?.lua;?.lua"}))
+			add("path", Pick(r, []string{"alt/?.lua;?.lua", "alt/?.lua", "?.lua", "?.lua;alt/?.lua", "?.lua;?.lua;alt/?.lua", "none/?.lua;alt/?.lua;?.lua",
+				"none/?.lua;;?.lua;alt/?.lua", ";alt/?.lua;?.lua", "alt/?.lua;;?.lua"}))
 		case c < 67:
 			add("newcpath")
 		case c < 69:
@@ -1084,7 +1091,8 @@ func genC20Replaced() [][]Op {
 			{mk("file", f, ";set")},
 			{},
 		} {
-			for pi, path := range []string{"alt/?.lua;?.lua", "alt/?.lua", "?.lua", "?.lua;alt/?.lua", "nowhere/?.lua;?.luac"} {
+			for pi, path := range []string{"alt/?.lua;?.lua", "alt/?.lua", "?.lua", "?.lua;alt/?.lua", "nowhere/?.lua;?.luac",
+				"nowhere/?.lua;;?.lua;alt/?.lua", ";?.lua", ";;alt/?.lua;?.lua", "?.lua;", "nowhere/?.lua;;", "alt/?.lua;;?.lua"} {
 				for _, early := range []bool{false, true} {
 					var ops []Op
 					ops = append(ops, c...)
